@@ -83,7 +83,9 @@ theorem tn_exchange_ne_tls (s : SendSettings) (req : Req) (cap n : Nat) (url : U
       · cases h
       · split at h
         · cases h
-        · split at h <;> cases h
+        · split at h
+          · cases h
+          · split at h <;> cases h
 
 /-! ### one hop -/
 
@@ -161,7 +163,7 @@ theorem tn_step_follow_inv {s : SendSettings} {req : Req} {cap n : Nat} {hop : H
   split
   · intro h; cases h
   · intro h
-    obtain ⟨_, _, _, hf, _, hn, _, hr⟩ := rd_exchange_follow_inv h
+    obtain ⟨_, _, _, hf, _, hn, _, hr, _⟩ := rd_exchange_follow_inv h
     exact ⟨hf, hn, hr⟩
 
 theorem tn_obs_plain {s : SendSettings} {req : Req} {cap : Nat} {hop : Hop} {url : Url} {hdrs : Headers}
